@@ -14,17 +14,18 @@ from ..core import AnalysisError, Func, Repo, Report, call_name, calls_in, chain
 from ..dataflow import DefUse
 from ..settypes import SetTypes
 from ..sites import guard_chain
+from .util import canon
 
 POSITIONAL_MODULES = ("layout.integer_layout_solver", "layout.power_planner", "layout.tile_grid")
 POSITIONAL_CLASSES = {"RelayNetwork", "RelayNode"}
 
-# frozen allow-list: (function, iterable text) -> reason.  Confirmed by reading; a new unlisted instance is a violation.
+# frozen allow-list: (function, kind of iteration, set-typed attributes the iterable is built from) -> reason.  Confirmed by reading; a new unlisted instance is a violation.
 ALLOW = {
-    ("EntityPlacer.create_output_anchors", "output_aliases"):
+    ("EntityPlacer.create_output_anchors", "for", ("output_aliases",)):
         "anchors are keyed by (signal id, alias): ids, descriptions and the signal-graph sink set are the same for every order; the emitter sorts placements by id and the edge collectors sort by signal id",
-    ("SignalAnalyzer.analyze", "list(entry.output_aliases)"):
+    ("SignalAnalyzer.analyze", "list", ("output_aliases",)):
         "debug_metadata['output_aliases'] is written but never read anywhere in the repository",
-    ("SemanticAnalyzer._infer_bundle_literal_type", "element_type.signal_types"):
+    ("SemanticAnalyzer._infer_bundle_literal_type", "for", ("signal_types",)):
         "body only fills seen_signals/signal_types (keyed by the element) or reports a duplicate: the order decides only which duplicate is reported first, and any duplicate aborts the compile",
 }
 
@@ -39,10 +40,14 @@ def is_logical(f: Func) -> bool:
     return ".src." in f.module.name or f.module.name in ("compile", "dsl_compiler.cli")
 
 
-def _body_order_insensitive(body: list[ast.stmt], elem_names: set[str]) -> tuple[bool, str]:
+def _body_order_insensitive(body: list[ast.stmt], elem_names: set[str], temps_ok: set[str] = frozenset()) -> tuple[bool, str]:
+    """temps_ok: names that are only ever read inside this loop body (scoped temporaries)."""
     for st in body:
         if isinstance(st, (ast.Continue, ast.Pass)):
             continue
+        if isinstance(st, (ast.Assign, ast.AnnAssign)) and all(isinstance(t, ast.Name) and t.id in temps_ok for t in (st.targets if isinstance(st, ast.Assign) else [st.target])):
+            if not any(isinstance(x, ast.Call) and call_name(x) not in ("get", "len", "str", "int", "isinstance", "getattr", "tuple", "sorted", "min", "max") for x in ast.walk(st)):
+                continue
         if isinstance(st, ast.Expr) and isinstance(st.value, ast.Call):
             c = st.value
             fn = call_name(c)
@@ -59,10 +64,10 @@ def _body_order_insensitive(body: list[ast.stmt], elem_names: set[str]) -> tuple
         if isinstance(st, ast.AugAssign) and isinstance(st.op, (ast.Add, ast.BitOr, ast.Mult)) and isinstance(st.target, ast.Name):
             continue
         if isinstance(st, ast.If):
-            ok, why = _body_order_insensitive(st.body, elem_names)
+            ok, why = _body_order_insensitive(st.body, elem_names, temps_ok)
             if not ok:
                 return ok, why
-            ok, why = _body_order_insensitive(st.orelse, elem_names)
+            ok, why = _body_order_insensitive(st.orelse, elem_names, temps_ok)
             if not ok:
                 return ok, why
             continue
@@ -106,11 +111,27 @@ def run(repo: Repo, rep: Report, tier: str) -> None:
                 continue
             n_inst += 1
             pm = pm or parents_map(f.node)
-            key = (f.short, norm(n)[:60] if kind in ("list", "tuple", "next", "iter", "enumerate", "join", "pop") else norm(it))
-            construct = f"{f.short}: iteration over set `{norm(it)[:50]}` ({kind}) is order-independent"
+            cnode = canon(f).node(it)
+            set_attrs = tuple(sorted({x.attr for x in ast.walk(cnode) if isinstance(x, ast.Attribute) and any(a == x.attr for _c, a in st_.attr_sets)}))
+            key = (f.short, kind, set_attrs)
+            construct = f"{f.short}: iteration over a set built from {list(set_attrs) or [norm(cnode)[-40:]]} ({kind}) is order-independent"
             if kind == "for":
                 elems = {x.id for x in ast.walk(n.target) if isinstance(x, ast.Name)}
-                ok, why = _body_order_insensitive(n.body, elems)
+                inside = {id(x) for b in n.body for x in ast.walk(b)}
+                assigned = {t.id for b in n.body for x in ast.walk(b) if isinstance(x, (ast.Assign, ast.AnnAssign)) for t in (x.targets if isinstance(x, ast.Assign) else [x.target]) if isinstance(t, ast.Name)}
+                cf_ = canon(f)
+
+                def _escapes(nm: str) -> bool:
+                    for x in walk_local(f.node):
+                        if isinstance(x, ast.Name) and x.id == nm and isinstance(x.ctx, ast.Load) and id(x) not in inside:
+                            ents, _outer = cf_.reaching(nm, cf_._stmt_of(x))
+                            if any(e_[2] is not None and id(e_[2]) in inside for e_ in ents):
+                                return True
+                    return False
+
+                temps = {nm for nm in assigned if not _escapes(nm)}
+                # a temporary keyed by the element counts as element-derived for keyed stores
+                ok, why = _body_order_insensitive(n.body, elems | temps, temps)
                 if ok:
                     rep.ok("C19-R1", construct, "body is order-insensitive", f.loc(n))
                     continue
@@ -200,7 +221,7 @@ def run(repo: Repo, rep: Report, tier: str) -> None:
         arg = n.args[0] if isinstance(n, ast.Call) and n.args else n
         leaves = du.leaves(arg)
         programmatic = any(l.kind in ("param", "attr", "call") for l in leaves)
-        rep.check(not programmatic, "C19-R3", f"{f.short} writes only built-in names to the global signal table (`{norm(n)[:50]}`)",
+        rep.check(not programmatic, "C19-R3", f"{f.short} writes only built-in names to the global signal table",
                   f"name derives from {sorted(str(l) for l in leaves if l.kind != 'const')[:5]}: it stays registered for every later compilation in the process, where "
                   f"is_valid_factorio_signal / ensure_signal_registered / name resolution consult the table", f.loc(n))
     mut_globals = []
